@@ -152,6 +152,10 @@ def run(ctx, replay=None):
             try:
                 V = st.build(case)
                 _ = V.experimental
+                try:
+                    _ = V.get_marginal('space', 0), V.get_marginal('time', 0)          # marginals read once before the assignment
+                except Exception:
+                    pass
                 if op == 'x_lags':
                     nv = rng.randint(1, 5)
                     V.x_lags = nv
@@ -190,6 +194,23 @@ def run(ctx, replay=None):
                         or not np.allclose(tb, fresh.tbins, equal_nan=True)):
                     ctx.problem('oracle', 'after assigning %s on an evaluated instance the table / the lag edges differ from a fresh instance with that setting' % op, dict(case, assigned=dict(over, op=op)),
                                 {'inplace': exp.tolist()[:8], 'fresh': ef.tolist()[:8], 'xbins': xb.tolist(), 'fresh_xbins': np.asarray(fresh.xbins, float).tolist()}, {'what': 'st-inplace', 'setter': op})
+                # the marginals of the instance are the rows / columns of ITS table, also after the assignment
+                try:
+                    Xn, Tn = len(xb), len(tb)
+                    for j_ in range(Tn):
+                        ms_ = np.asarray(V.get_marginal('space', j_), float)
+                        if len(ms_) != Xn or not all(same_float(ms_[i_], exp[i_ * Tn + j_]) for i_ in range(Xn)):
+                            ctx.problem('oracle', 'after assigning %s in place the space marginal for time lag %d is not the column of the table' % (op, j_), dict(case, assigned=dict(over, op=op)),
+                                        {'marginal': ms_.tolist(), 'column': [float(exp[i_ * Tn + j_]) for i_ in range(Xn)]}, {'what': 'st-inplace-marginal', 'setter': op})
+                            break
+                    for i_ in range(Xn):
+                        mt_ = np.asarray(V.get_marginal('time', i_), float)
+                        if len(mt_) != Tn or not all(same_float(mt_[j_], exp[i_ * Tn + j_]) for j_ in range(Tn)):
+                            ctx.problem('oracle', 'after assigning %s in place the time marginal for space lag %d is not the row of the table' % (op, i_), dict(case, assigned=dict(over, op=op)),
+                                        {'marginal': mt_.tolist()}, {'what': 'st-inplace-marginal', 'setter': op})
+                            break
+                except Exception as e:
+                    ctx.count('inplace_marginal_rejected', type(e).__name__)
                 ctx.count('inplace_setter', op)
                 ctx.tests['inplace_setter_runs'] = ctx.tests.get('inplace_setter_runs', 0) + 1
             except Exception as e:
